@@ -860,17 +860,13 @@ Proof.
   intros St Hok Hlt Ha.
   destruct (gcxs_join_shape t ptrs St Hok Hlt) as [t' [vals [E1 [S' [F' [_ L]]]]]].
   rewrite E1 in Ha. injection Ha as <-. cbn [tdt tv].
+  destruct vals as [|v0 vals]; [reflexivity|].
   apply width_irrelevant_uncompress_partial_proof; [exact S'|].
   unfold uncompress_clause. rewrite L.
   pose proof (std_pos t' S') as Hb.
-  destruct (Z.le_gt_cases 0 (joined_len ptrs - 1)).
-  - apply (fits_le t' (s_gcxs_join_needed (zsum (map snd ptrs)) (joined_len ptrs))); [exact Hb|exact F'|].
-    unfold s_gcxs_join_needed. lia.
-  - assert (joined_len ptrs = 0) by lia. rewrite H0. cbn.
-    destruct vals; [|cbn in L; lia]. apply fits_iff. pose proof (ilo_nonpos t' Hb).
-    (* an empty index pointer: -1 is only asked of a signed type; rows_of [] = [] anyway *)
-    exfalso. clear - E1. unfold m_gcxs_join in E1.
-    destruct ptrs as [|[p0 n0] r]; cbn in H0; try lia; fail.
+  cbn [length] in L. rewrite Nat2Z.inj_succ in L.
+  apply (fits_le t' (s_gcxs_join_needed (zsum (map snd ptrs)) (joined_len ptrs))); [exact Hb|exact F'|].
+  unfold s_gcxs_join_needed. lia.
 Qed.
 
 Theorem uncompress_refuted_proof :
